@@ -251,11 +251,14 @@ pub struct RawStore {
 }
 
 /// raw content of the storage tables for application entities (names not starting with "sys.")
-pub async fn read_store(peer: &Peer, short_entities: Vec<String>) -> RawStore {
+pub async fn read_store(peer: &Peer, short_entities: Vec<String>, rooms: Vec<Uid>, rows: Vec<Uid>) -> RawStore {
     peer.sql(move |conn| {
         let inlist = short_entities.iter().map(|e| format!("'{}'", e)).collect::<Vec<_>>().join(",");
+        let hex = |u: &Uid| format!("x'{}'", u.iter().map(|b| format!("{:02x}", b)).collect::<String>());
+        let roomlist = if rooms.is_empty() { "x'00'".to_string() } else { rooms.iter().map(hex).collect::<Vec<_>>().join(",") };
+        let rowlist = if rows.is_empty() { "x'00'".to_string() } else { rows.iter().map(hex).collect::<Vec<_>>().join(",") };
         let mut nodes = Vec::new();
-        let q = format!("SELECT id, room_id, cdate, mdate, _entity, _json, verifying_key, _signature, rowid FROM _node WHERE _entity IN ({inlist}) ORDER BY id");
+        let q = format!("SELECT id, room_id, cdate, mdate, _entity, _json, verifying_key, _signature, rowid FROM _node WHERE _entity IN ({inlist}) AND (room_id IN ({roomlist}) OR id IN ({rowlist})) ORDER BY id");
         let mut st = conn.prepare(&q).unwrap();
         let mut rows = st.query([]).unwrap();
         while let Some(r) = rows.next().unwrap() {
@@ -272,7 +275,7 @@ pub async fn read_store(peer: &Peer, short_entities: Vec<String>) -> RawStore {
             });
         }
         let mut edges = Vec::new();
-        let q = format!("SELECT src, src_entity, label, dest, cdate, verifying_key, signature FROM _edge WHERE src_entity IN ({inlist}) ORDER BY src, label, dest");
+        let q = format!("SELECT src, src_entity, label, dest, cdate, verifying_key, signature FROM _edge WHERE src_entity IN ({inlist}) AND src IN ({rowlist}) ORDER BY src, label, dest");
         let mut st = conn.prepare(&q).unwrap();
         let mut rows = st.query([]).unwrap();
         while let Some(r) = rows.next().unwrap() {
@@ -287,7 +290,7 @@ pub async fn read_store(peer: &Peer, short_entities: Vec<String>) -> RawStore {
             });
         }
         let mut ntombs = Vec::new();
-        let q = format!("SELECT room_id, id, entity, mdate, deletion_date, verifying_key, signature FROM _node_deletion_log WHERE entity IN ({inlist}) ORDER BY id, deletion_date");
+        let q = format!("SELECT room_id, id, entity, mdate, deletion_date, verifying_key, signature FROM _node_deletion_log WHERE entity IN ({inlist}) AND (room_id IN ({roomlist}) OR id IN ({rowlist})) ORDER BY id, deletion_date");
         let mut st = conn.prepare(&q).unwrap();
         let mut rows = st.query([]).unwrap();
         while let Some(r) = rows.next().unwrap() {
@@ -302,7 +305,7 @@ pub async fn read_store(peer: &Peer, short_entities: Vec<String>) -> RawStore {
             });
         }
         let mut etombs = Vec::new();
-        let q = format!("SELECT room_id, src, src_entity, dest, label, cdate, deletion_date, verifying_key, signature FROM _edge_deletion_log WHERE src_entity IN ({inlist}) ORDER BY src, label, dest, deletion_date");
+        let q = format!("SELECT room_id, src, src_entity, dest, label, cdate, deletion_date, verifying_key, signature FROM _edge_deletion_log WHERE src_entity IN ({inlist}) AND (room_id IN ({roomlist}) OR src IN ({rowlist})) ORDER BY src, label, dest, deletion_date");
         let mut st = conn.prepare(&q).unwrap();
         let mut rows = st.query([]).unwrap();
         while let Some(r) = rows.next().unwrap() {
@@ -319,7 +322,7 @@ pub async fn read_store(peer: &Peer, short_entities: Vec<String>) -> RawStore {
             });
         }
         let mut logs = Vec::new();
-        let q = format!("SELECT room_id, entity, date, entry_number, daily_hash, history_hash, need_recompute FROM _daily_log WHERE entity IN ({inlist}) ORDER BY room_id, entity, date");
+        let q = format!("SELECT room_id, entity, date, entry_number, daily_hash, history_hash, need_recompute FROM _daily_log WHERE entity IN ({inlist}) AND room_id IN ({roomlist}) ORDER BY room_id, entity, date");
         let mut st = conn.prepare(&q).unwrap();
         let mut rows = st.query([]).unwrap();
         while let Some(r) = rows.next().unwrap() {
@@ -462,7 +465,10 @@ pub async fn create_open_room(peer: &Peer, users: &[Vec<u8>]) -> Result<Uid, Str
     let mut users_txt = String::new();
     for (i, u) in users.iter().enumerate() {
         p.add(&format!("u{i}"), base64_encode(u)).unwrap();
-        users_txt.push_str(&format!("{{verif_key:$u{i}}} "));
+        if i > 0 {
+            users_txt.push(',');
+        }
+        users_txt.push_str(&format!("{{verif_key:$u{i}}}"));
     }
     let q = format!(
         r#"mutate {{ sys.Room {{ admin: [{{verif_key:$admin}}] authorisations:[{{ name:"all" rights:[{{entity:"*" mutate_self:true mutate_all:true}}] users:[{users_txt}] }}] }} }}"#
